@@ -61,7 +61,8 @@ def rstring(rng, tag, used, allow_nul=False):
         elif r < 0.6:
             b = (rng.choice(_WORDS) + " " + tag + str(rng.randrange(1000))).encode()
         elif r < 0.7:
-            n = rng.choice([255, 256, 300, 1000, 5000])
+            n = rng.choice([255, 256, 300, 1000, 5000, 5000, 1000, 300, 256, 255, 65535, 65536, 70000] if rng.random() < 0.15
+                           else [255, 256, 300, 1000, 5000])
             b = (tag.encode() + b"-" + bytes(rng.choice(b"abcdefghijklmnopqrstuvwxyz") for _ in range(n)))[:n]
         elif r < 0.8:
             b = "".join(rng.choice(["é", "日", "本", "ü", "𝄞", "a", " ", "ß", "Ω"]) for _ in range(rng.randrange(1, 30))).encode()
